@@ -64,7 +64,7 @@ Sem1(op, ts, at) ==
     [] op = "Mod" -> IF ts[1].dt = "i64" /\ SameDt(ts) /\ ~HasZero(ts[2]) THEN Map2(ts[1], ts[2], "i64", LAMBDA p, q : PyMod(p, q)) ELSE ERR
     [] op = "Min" -> IF ArithOK(ts) /\ SameDt(ts) THEN Map2(ts[1], ts[2], ts[1].dt, LAMBDA p, q : Min2(p, q)) ELSE ERR
     [] op = "Max" -> IF ArithOK(ts) /\ SameDt(ts) THEN Map2(ts[1], ts[2], ts[1].dt, LAMBDA p, q : Max2(p, q)) ELSE ERR
-    [] op = "Sum" -> IF ArithOK(ts) /\ SameDt(ts) THEN Map2(Map2(ts[1], ts[2], ts[1].dt, LAMBDA p, q : p + q), ts[3], ts[1].dt, LAMBDA p, q : p + q) ELSE ERR
+    [] op = "Sum" -> IF ts[1].dt = "f32" /\ SameDt(ts) THEN Map2(Map2(ts[1], ts[2], ts[1].dt, LAMBDA p, q : p + q), ts[3], ts[1].dt, LAMBDA p, q : p + q) ELSE ERR
     [] op = "Equal" -> IF ArithOK(ts) /\ SameDt(ts) THEN Map2(ts[1], ts[2], "bool", LAMBDA p, q : B2I(p = q)) ELSE ERR
     [] op = "Less" -> IF ArithOK(ts) /\ SameDt(ts) THEN Map2(ts[1], ts[2], "bool", LAMBDA p, q : B2I(p < q)) ELSE ERR
     [] op = "Greater" -> IF ArithOK(ts) /\ SameDt(ts) THEN Map2(ts[1], ts[2], "bool", LAMBDA p, q : B2I(p > q)) ELSE ERR
